@@ -5,7 +5,7 @@ PROP = "C08"
 LEVEL = "exploration"
 ENGINE = "EP"
 N = {"quick": 900, "thorough": 60000}
-TIME = {"quick": 45, "thorough": 480}
+TIME = {"quick": 300, "thorough": 480}
 RULE = ("Same episode generator as C07 (delay d in 0..3, latency {0,5,30}s, extra quotes placed at L-1ms, L, L+1ms and mid-gap, "
         "late folds; every third case runs a second episode on the same environment), Box spaces with per-step unique actions (step index encoded in the weights) and Discrete spaces (every other "
         "case). Oracle: the allocation executed at decision k equals the allocation denoted by the action submitted at k-d (null "
